@@ -39,10 +39,11 @@ structure Fixes where
   profileFlush : Bool  -- onProfile flushes the profile (not the span fields); an empty profile is not sent
   nameGuard    : Bool  -- `name[i+1:length-1]` is guarded
   nsGuard      : Bool  -- ns(0) terminates; the multipart decoder returns the `until` parse error
+  influxNewline : Bool -- the influx decoder terminates the last line (telegraf's parser spins on a trailing escape)
   deriving DecidableEq, Repr
 
-def fixed : Fixes := ⟨true, true, true, true, true, true, true⟩
-def pinned : Fixes := ⟨false, false, false, false, false, false, false⟩
+def fixed : Fixes := ⟨true, true, true, true, true, true, true, true⟩
+def pinned : Fixes := ⟨false, false, false, false, false, false, false, false⟩
 
 /-! ## Fault-capable primitives -/
 
@@ -250,6 +251,8 @@ inductive LogItem
   | error (code : Nat)                           -- the decoder returns an error here
   | assertStr (isString : Bool)                  -- `fields["message"].(string)`
   | derefGetter (present : Bool)                 -- pointer field that the fixed code reads through a getter
+  | danglingEscape                               -- influx body ending inside a measurement escape: telegraf's
+                                                 -- `StreamParser.Next` never returns (third-party loop, observed)
   deriving DecidableEq, Repr
 
 def logStep (fx : Fixes) (thr : Nat) (st : LogSt) : LogItem → Res LogSt
@@ -258,6 +261,7 @@ def logStep (fx : Fixes) (thr : Nat) (st : LogSt) : LogItem → Res LogSt
   | .error code => .err code
   | .assertStr b => liftE (do assertString b; pure st)
   | .derefGetter p => if fx.otlpGetters then .ok st else liftE (do deref p; pure st)
+  | .danglingEscape => if fx.influxNewline then .err 400 else .spin
 
 /-- `doParseLogs`: after a successful decode `p.tsSpl.flush()` is unconditional -/
 def logsRun (fx : Fixes) (thr : Nat) (items : List LogItem) : Run :=
@@ -576,7 +580,7 @@ def otlpLogsItems (rs : List OtlpResourceLogs) : List LogItem :=
 inductive FieldKind | str | int | float | other
   deriving DecidableEq, Repr
 
-inductive InfluxLine | bad | point (message : Option FieldKind) (others : List FieldKind)
+inductive InfluxLine | bad | point (message : Option FieldKind) (others : List FieldKind) | danglingEscape
   deriving DecidableEq, Repr
 
 def FieldKind.numeric : FieldKind → Bool | .int => true | .float => true | _ => false
@@ -587,6 +591,7 @@ def influxItems (ls : List InfluxLine) : List LogItem :=
   ls.flatMap (fun l =>
     match l with
     | .bad => [.error 400]
+    | .danglingEscape => [.danglingEscape]
     | .point (some k) others =>
       (if others.isEmpty then [LogItem.assertStr (k == .str)] else []) ++ [.entries (oneEntry 1 1)]
     | .point none others => (others.filter (·.numeric)).map (fun _ => .entries (oneEntry 2 2)))
